@@ -55,12 +55,27 @@ class Report:
         deep (this also breaks cycles such as C06 <-> C09)."""
         if self._borrow is not None:
             return
-        self._borrow_sites = tuple(only_sites) if only_sites else None
-        try:
-            with self.borrow(mapping):
-                module.run(repo, self)
-        finally:
-            self._borrow_sites = None
+        cache = self.__dict__.setdefault("_lender_cache", {})
+        key = module.__name__
+        if key not in cache:
+            # run the lender once, capturing everything it records; later borrows from the same lender replay the capture
+            captured, floors = [], {}
+            self._capture = (captured, floors)
+            try:
+                with self.borrow({}):
+                    module.run(repo, self)
+            finally:
+                self._capture = None
+            cache[key] = (captured, floors)
+        captured, floors = cache[key]
+        sites = tuple(only_sites) if only_sites else None
+        for status, rule, site, construct, detail in captured:
+            if rule in mapping and (not sites or any(x in site for x in sites)):
+                self.instances.append({"rule": mapping[rule], "site": site, "construct": construct, "status": status, "detail": detail})
+        if not sites:
+            for rule, n in floors.items():
+                if rule in mapping:
+                    self.floors.setdefault(mapping[rule], n)
 
     # ---- declaring
     def clause(self, rule, text):
@@ -77,21 +92,19 @@ class Report:
 
     def floor(self, rule, n):
         if self._borrow is not None:
-            if getattr(self, "_borrow_sites", None):
-                return  # a site-filtered borrow keeps a subset of the instances: the lender's floor does not apply
-            if rule in self._borrow:
-                self.floors[self._borrow[rule]] = n
+            cap = getattr(self, "_capture", None)
+            if cap is not None:
+                cap[1][rule] = n
             return
         self.floors[rule] = n
 
     # ---- recording
     def _add(self, status, rule, site, construct, detail):
         if self._borrow is not None:
-            if rule not in self._borrow:
-                return
-            if getattr(self, "_borrow_sites", None) and not any(x in site for x in self._borrow_sites):
-                return
-            rule = self._borrow[rule]
+            cap = getattr(self, "_capture", None)
+            if cap is not None:
+                cap[0].append((status, rule, site, " ".join(str(construct).split()), detail))
+            return
         construct = " ".join(str(construct).split())
         self.instances.append(
             {"rule": rule, "site": site, "construct": construct, "status": status, "detail": detail}
